@@ -305,6 +305,10 @@ type PollCase struct {
 	Kind string `json:"kind"` // array | tree | object | nested
 	N    int    `json:"n"`
 	Work string `json:"work"` // n | n2 (pairs)
+	// Base, if set, is the path without the outermost value-sized phase of Path (for -$[*], the wildcard
+	// without the negation of its n items): that phase alone must contribute its share of looks, which the
+	// total cannot show when an earlier phase looks at the context once per element (D52).
+	Base string `json:"base,omitempty"`
 }
 
 func (c PollCase) doc() any {
@@ -363,6 +367,19 @@ var checkPollDensity = register("c20.polldensity", func(c PollCase) *Violation {
 	if need := work / 1024; cc.polls < need {
 		return violf("Query(%q) on a %s document of size %d does about %d units of work (elements visited / pairs compared) but looked at the context only %d times: a context that becomes done is not noticed within a bounded number of steps (at least one look per 1,024 units = %d expected)", c.Path, c.Kind, c.N, work, cc.polls, need)
 	}
+	if c.Base != "" {
+		bp, err, pan := ParseSafe(c.Base)
+		if err != nil || pan != "" {
+			return violf("harness: %q does not parse: %v %s", c.Base, err, pan)
+		}
+		bc := newCountCtx(context.Background(), -1, nil)
+		if bo := RunQuery(bc, bp, doc); bo.Panic != "" {
+			return violf("Query(%q) on a %s of %d panicked: %s", c.Base, c.Kind, c.N, bo.Panic)
+		}
+		if need := c.N / 1024; cc.polls-bc.polls < need {
+			return violf("Query(%q) on a %s document of size %d looks at the context %d times, Query(%q) %d times: the additional pass over the %d items is made with only %d looks (at least one per 1,024 items = %d expected), so a context that becomes done during it is not noticed within a bounded number of steps", c.Path, c.Kind, c.N, cc.polls, c.Base, bc.polls, c.N, cc.polls-bc.polls, need)
+		}
+	}
 	return nil
 })
 
@@ -374,6 +391,10 @@ func pollCases() []PollCase {
 			PollCase{Path: "$.*", Kind: "object", N: n, Work: "n"}, PollCase{Path: "$.**", Kind: "tree", N: n, Work: "n"}, PollCase{Path: "$.**{3}", Kind: "tree", N: n, Work: "n"}, PollCase{Path: "strict $.**{1 to last}", Kind: "tree", N: n, Work: "n"},
 			PollCase{Path: "$.**{9}.x", Kind: "tree", N: n, Work: "n"}, PollCase{Path: "$.keyvalue()", Kind: "object", N: n, Work: "n"}, PollCase{Path: "$[*][0]", Kind: "nested", N: n, Work: "n"},
 			PollCase{Path: "$[*] ? (@ > 100)", Kind: "array", N: n, Work: "n"}, PollCase{Path: "-$[*]", Kind: "array", N: n, Work: "n"}, PollCase{Path: "$[*].abs()", Kind: "array", N: n, Work: "n"},
+			PollCase{Path: "-$[*]", Kind: "array", N: n, Work: "n", Base: "$[*]"}, PollCase{Path: "+$[*]", Kind: "array", N: n, Work: "n", Base: "$[*]"}, PollCase{Path: "(-$[*]).abs()", Kind: "array", N: n, Work: "n", Base: "-$[*]"},
+			PollCase{Path: "$[*] + 1", Kind: "array", N: n, Work: "n", Base: "$[*]"}, PollCase{Path: "$[*].abs()", Kind: "array", N: n, Work: "n", Base: "$[*]"}, PollCase{Path: "$[*] ? (@ > 100)", Kind: "array", N: n, Work: "n", Base: "$[*]"},
+			PollCase{Path: "$[*][0]", Kind: "nested", N: n, Work: "n", Base: "$[*]"}, PollCase{Path: "$.keyvalue().value", Kind: "object", N: n, Work: "n", Base: "$.keyvalue()"}, PollCase{Path: "$.*.abs()", Kind: "object", N: n, Work: "n", Base: "$.*"},
+			PollCase{Path: "$.**.type()", Kind: "tree", N: n, Work: "n", Base: "$.**"}, PollCase{Path: "- $.**{2 to last}", Kind: "tree", N: n / 2, Work: "n", Base: "$.**{2 to last}"},
 			PollCase{Path: "exists($[*] ? (@ > 100))", Kind: "array", N: n, Work: "n"}, PollCase{Path: "$.** ? (@ > 100)", Kind: "tree", N: n, Work: "n"})
 	}
 	for _, n := range []int{300, 1500} {
